@@ -19,7 +19,7 @@ func init() {
 }
 
 func VerifHarness_C04_sixteenk() {
-	n := 16384 + rt.Choice("over", 2)
+	n := []int{16384, 16385, 65535, 65536}[rt.Choice("size", 4)]
 	s := p1Build([]string{"a"}, []int{n}, 1, false)
 	p1Check(s)
 }
